@@ -211,7 +211,14 @@ func runShards(b *build, id, tier string) (*Merged, error) {
 			outf := filepath.Join(b.scratch, fmt.Sprintf("shard%d.json", i))
 			cmd := exec.Command(b.bin, "-prop", id, "-tier", tier, "-shard", strconv.Itoa(i), "-nshards", strconv.Itoa(n), "-budget", budget.String(), "-out", outf, "-claimdir", b.scratch)
 			cmd.Env = append(os.Environ(), "GOMAXPROCS=1")
+			// hard stop: a shard that does not come back is an infrastructure error, never a hang
+			timer := time.AfterFunc(budget+90*time.Second, func() {
+				if cmd.Process != nil {
+					cmd.Process.Kill()
+				}
+			})
 			msg, err := cmd.CombinedOutput()
+			timer.Stop()
 			if err != nil {
 				results[i] = res{err: fmt.Errorf("shard %d: %v\n%s", i, err, tail(string(msg), 4000)), i: i}
 				return
